@@ -447,6 +447,46 @@ class Model:
         return None
 
 
+def dispatch_targets(model, call, resolve_local):
+    """functions a call `f(...)` may reach when f is a local variable bound to
+    `{k: func, ...}.get(x)` / `{...}[x]` (dispatch table of functions or bound methods);
+    [] if the call is not of that form or an entry does not resolve"""
+    f = call.func
+    if not isinstance(f, ast.Name):
+        return []
+    out = []
+    vals = resolve_local(model, f)
+    if not vals:
+        return []
+    for v in vals:
+        d = None
+        if isinstance(v, ast.Call) and isinstance(v.func, ast.Attribute) and v.func.attr == 'get' \
+                and isinstance(v.func.value, ast.Dict):
+            d = v.func.value
+            if len(v.args) > 1 and not (isinstance(v.args[1], ast.Constant) and v.args[1].value is None):
+                return []
+        elif isinstance(v, ast.Subscript) and isinstance(v.value, ast.Dict):
+            d = v.value
+        if d is None:
+            return []
+        for e in d.values:
+            r = None
+            if isinstance(e, ast.Attribute) and isinstance(e.value, ast.Name) and e.value.id == 'self':
+                fn = call._fn
+                g = fn
+                while g is not None and g.cls is None:
+                    g = g.outer
+                if g is not None:
+                    m = model.find_method(g.cls, e.attr)
+                    r = ('func', m) if m else None
+            else:
+                r = model.resolve_symbol(call._mod, call._fn, e)
+            if not (r and r[0] == 'func'):
+                return []
+            out.append(r[1])
+    return out
+
+
 def unparse(n):
     return ast.unparse(n)
 
